@@ -206,12 +206,26 @@ def r_tag_numbering(c):
             + "; ".join(m.frag(b, 50) for b in bad[:2]))
 
 
+def r_state(c):
+    """"identical when produced twice in one process", "other graphs built and
+    discarded first": nothing an artefact is built from may live longer than the
+    call that builds it (a module-level name generator or counter, a mutable
+    default argument, a class-level table some method fills)"""
+    from pta.rules.common import check_no_shared_state
+    mods = sorted(x for x in c.model.modules
+                  if not x.startswith(("pytato.visualization", "pytato.stringifier")))
+    check_no_shared_state(
+        c, "R17-STATE", mods,
+        "what is generated (names, orders, tag numbers) depends on what was generated "
+        "earlier in the same process", floor_funcs=500)
+
+
 SPEC = Spec(
     prop="C17",
     rules=[r_unordered, r_emitter_dict_order, r_topo_key, r_identity_order,
-           r_tag_numbering],
+           r_tag_numbering, r_state],
     floors={"R17-UNORDERED": 30, "R17-DICT-ORDER": 3, "R17-TOPO-KEY": 1,
-            "R17-TAG-NUMBERING": 1},
+            "R17-TAG-NUMBERING": 1, "R17-STATE": 25},
     explanation=(
         "R17-UNORDERED: local type inference finds every iteration (for loops, "
         "comprehensions, list()/tuple()/enumerate()/zip()/next(iter())/join/"
@@ -227,7 +241,10 @@ SPEC = Spec(
         "are iterated only through sorted(...). R17-TOPO-KEY: "
         "compute_topological_order gets key=. R17-IDENTITY-ORDER: no id()/hash() in "
         "sort keys or generated strings. R17-TAG-NUMBERING: no set on the path "
-        "that numbers communication tags."),
+        "that numbers communication tags. R17-STATE: no module of the package "
+        "keeps state that outlives a call (mutable default arguments, class- or "
+        "module-level containers that functions mutate): an artefact produced "
+        "twice in one process is produced from the same inputs (canary fixture)."),
     not_decided=(
         "Byte identity of C source produced by loopy and ordering inside loopy, "
         "islpy, mpi4py (trusted base); order dependence through a set hidden "
